@@ -135,3 +135,13 @@ fn parse_undo_redo_message(msg: &BStr) -> Option<URState> {
     }
     None
 }
+
+/// Verification hook: expose the undo/redo reflog message classifier.
+#[cfg(stgit_verif)]
+pub(crate) fn verif_parse_undo_redo_message(msg: &[u8]) -> String {
+    match parse_undo_redo_message(msg.as_bstr()) {
+        Some(URState::Undo(n)) => format!("undo {n}"),
+        Some(URState::Redo(n)) => format!("redo {n}"),
+        None => "none".to_string(),
+    }
+}
